@@ -135,6 +135,28 @@ theorem ymd_is_midnight_utc (y : Int) (m d : Nat) :
   · unfold dateTimeYmd
     split <;> simp_all
 
+/-- … and it is *written* as that day: converted to UTC it is `y-m-d 00:00:00`, so for a year
+    within 0..=9999 the encoded time is `[YY]YYMMDD000000Z` — UTCTime exactly for 1950..=2049 -/
+theorem ymd_written_as_that_day (y : Int) (m d : Nat) (dt : DateTime)
+    (h : dateTimeYmd y m d = some dt) :
+    dt.toUtc = ⟨y, m, d, 0, 0, 0⟩ ∧
+    writeTime dt = (if 1950 ≤ y ∧ y < 2050 then .utcTime (utcTimeBytes ⟨y, m, d, 0, 0, 0⟩)
+                    else .genTime (genTimeBytes ⟨y, m, d, 0, 0, 0⟩)) := by
+  have hv := ((ymd_is_midnight_utc y m d).2).1 (by rw [h]; rfl)
+  obtain ⟨he, _, _, _, _, _⟩ := (ymd_is_midnight_utc y m d).1 dt h
+  have hu : dt.toUtc = ⟨y, m, d, 0, 0, 0⟩ := by
+    unfold DateTime.toUtc utcOfEpoch
+    rw [he]
+    have h1 : daysFromCivil y m d * 86400 / 86400 = daysFromCivil y m d := by omega
+    have h2 : (daysFromCivil y m d * 86400 % 86400).toNat = 0 := by omega
+    rw [h1, h2, civil_days_roundtrip y m d hv.2.2.1 hv.2.2.2.1 hv.2.2.2.2.1 hv.2.2.2.2.2]
+  refine ⟨hu, ?_⟩
+  unfold writeTime formYear
+  rw [hu]
+
+example : (dateTimeYmd 2049 12 31).map (fun dt => encode (writeTime dt)) =
+    some [23, 13, 52,57,49,50,51,49,48,48,48,48,48,48,90] := by decide +kernel
+
 example : (dateTimeYmd 2000 2 29).map DateTime.epochSeconds = some 951782400 := by decide
 example : dateTimeYmd 1900 2 29 = none := by decide
 
